@@ -609,6 +609,72 @@ def gen_nonwritable_prog(rng):
     return p
 
 
+def gen_boundary_prog(rng):
+    """directed family for the bank-range checks that exist only on the FINAL pass (resolver/addr.rs "address is out of bank
+    range", align.rs "invalid alignment size") and for the bank-size check of build_output: `#addr` below the bank start /
+    exactly at the start / at the last address / exactly at the end / past it, `#res` and `#align` reaching the end -1 / 0 / +1,
+    in label-free programs (which converge in ONE pass with the static optimisation) and in ordinary ones.
+    No budget may assemble an out-of-range program; budget 1 must not differ from budget 2 except by the F70 class."""
+    p = Prog2(asm_gen.Isa())
+    p.kind = 'boundary'
+    it = p.items
+    hx = lambda v: ('0x%x' % v) if v >= 0 else '-0x%x' % -v
+    unit = rng.weighted([(8, 75), (4, 10), (16, 15)])
+    w = 8 if unit <= 8 else unit                 # width of one data element (a whole number of addresses)
+    per = w // unit                              # addresses per element
+    if rng.chance(0.8):
+        a = rng.choice([0x8000, 0x10, 0x40, 0, -0x20])
+        size = rng.choice([4, 8, 0x10, 0x10, 0x40])
+        f = {'addr': hx(a), 'outp': '0x0'}
+        if unit != 8 or rng.chance(0.3):
+            f['bits'] = str(unit)
+        if rng.chance(0.85):
+            if rng.chance(0.3):
+                f['addr_end'] = hx(a + size)
+            else:
+                f['size'] = hx(size)
+        else:
+            size = None
+        it.append(('bankdef', 'rom', f))
+    else:
+        a, size = 0, None                        # the default bank: starts at 0, no size
+    labelfree = rng.chance(0.5)
+    names = []
+    used = 0                                     # addresses used so far (only meaningful before the first #addr)
+
+    def data():
+        v = rng.below(200)
+        if not labelfree and names and rng.chance(0.5):
+            return ('data', 32 if w <= 32 else w, [rng.choice(names)])
+        return ('data', w, [str(v)])
+
+    for _ in range(rng.range(0, 2)):
+        it.append(data()); used += (it[-1][1] // unit)
+    if not labelfree and rng.chance(0.7):
+        names.append('l0'); it.append(('label', 'l0', 0))
+    lim = size if size is not None else 0x20
+    k = rng.below(100)
+    if k < 55:
+        t = a + rng.choice([-0x10, -1, -1, 0, 0, 1, lim - 1, lim - 1, lim, lim, lim + 1, lim + 0x10])
+        it.append(('addr', hx(t) if rng.chance(0.8) or labelfree or not names else '%s - %s + %s' % (names[0], names[0], hx(t)) if t >= 0 else hx(t)))
+    elif k < 80:
+        n = max(0, lim - used + rng.choice([-2, -1, -1, 0, 0, 1, 1, 2]))
+        it.append(('res', str(n)))
+    else:
+        it.append(('align', str(rng.choice([0, unit, 2 * unit, w * 4, unit * lim, unit * (lim + 1), 3]))))
+    for _ in range(rng.range(0, 2)):
+        it.append(data())
+    if not labelfree and rng.chance(0.6):
+        names.append('l1'); it.append(('label', 'l1', 0))
+        if rng.chance(0.5):
+            it.append(('data', 32 if w <= 32 else w, ['l1']))
+    if rng.chance(0.15):
+        it.append(('addr', hx(a + rng.choice([-1, 0, 2, lim]))))
+        it.append(data())
+    p.names = names
+    return p
+
+
 def gen_prog2(rng):
     """one program of the Resolver2 streams; .kind names the family"""
     k = rng.below(100)
@@ -619,6 +685,8 @@ def gen_prog2(rng):
     if k < 11:
         return gen_nonwritable_prog(rng)
     if k < 14:
+        return gen_boundary_prog(rng)
+    if k < 19:
         p = decorate(rng, asm_gen.gen_chain_prog(rng), gentle=True); p.kind = 'chain'
     elif k < 25:
         p = decorate(rng, asm_gen.gen_shift_prog(rng), gentle=True); p.kind = 'shift'
